@@ -4,8 +4,8 @@ from props import corelib as K
 
 ID = 'C15'
 HARNESS = 'c15'
-COQ_IMPORTS = 'From VRP Require Import Base.Tac Model.CostOrder Model.Reduce Model.Core Model.Reduce2.'
-MODEL_TARGETS = ['theories/Model/Reduce.vo', 'theories/Model/Reduce2.vo']
+COQ_IMPORTS = 'From VRP Require Import Base.Tac Model.CostOrder Model.Reduce Model.Core Model.Reduce2 Model.MultiPerm.'
+MODEL_TARGETS = ['theories/Model/Reduce.vo', 'theories/Model/Reduce2.vo', 'theories/Model/MultiPerm.vo']
 MODEL_NEEDS_IMPL = True
 SHARD = 60
 SIZES = {'quick': 150, 'thorough': 2500, 'search': 800}
@@ -22,7 +22,11 @@ RULE = ('cases: 1-3 existing routes (tours of 0-4 activities; one case in three:
         '1x1, 1x4, 2x1, 2x2, 3x2, 4x1, 8x1, default plus always one of 0x1 / 0x4 (empty vector of pools); on every returned solution: each job exactly once (served or unassigned), nothing '
         'foreign, no vehicle twice, no tour above capacity. Every 19th case is op choose (16 generated result pairs through the real choose_best_result) and '
         'every 19th op decompose (the real DecomposeSearch around an identity inner search on 4-9 tours + 0-2 unassigned jobs under 4-5 layouts (one of them with zero pools): every tour '
-        'must come back exactly once).')
+        'must come back exactly once). One grid case in six (op multi grid) has 1-3 tours of 2-3 stops + 0-1 free vehicle on a metric matrix with open windows and 2-5 candidates of which '
+        '1-2 are Multi jobs of 2-3 sub-jobs with 2-3 allowed permutations (FixedJobPermutation), placed anywhere in the job list; in two of three the cheapest insertion '
+        'needs a NON-first permutation and costs nothing (sub-jobs at the locations of two consecutive stops, listed in reverse); pools of 1,2,3,5,8,16 threads. For every '
+        'pair of every grid case additionally: the step started from an accumulator that holds a success strictly worse than the pair\'s own result (best_known_cost = own cost + 1 '
+        'in the last component) must return the pair\'s own cost; for Multi candidates every allowed permutation is evaluated on its own and fed to Model/MultiPerm.v.')
 TRUSTED = ["rayon's fold/reduce/collect only produce reductions over contiguous chunks in order and an order-preserving collect (documented contract); real thread interleavings are sampled, not enumerated",
            'ThreadPool::execute = rayon install returns the closure\'s value (modelled as such)',
            'the twin of evaluate_and_collect_all in the harness (the real function is pub(crate)); the real one is reached only through RecreateWithSkipBest']
@@ -87,9 +91,72 @@ def gen_decompose_case(rng):
             'layouts': layouts, 'range': [2, rng.range(2, 4)], 'repeat': rng.range(1, 2)}
 
 
+def cid(j):
+    """job id as the harness reports it"""
+    return ('m%d' if 'multi' in j else 'j%d') % j['id']
+
+
+def gen_multi_grid(rng):
+    """routes x jobs grid whose candidates include Multi jobs with two or more allowed permutations of their sub-jobs
+    (metric matrix, open time windows, static demand only: every pair succeeds and no estimate is negative)"""
+    import itertools
+    w = K.gen_world(rng, nmax=8, metric=True)
+    n = w['n']
+    base = {x: w[x] for x in ('n', 'dur', 'dist')}
+
+    def veh():
+        return {'start': 0, 'end': (rng.below(n) if rng.chance(1, 2) else None), 'shift_start': 0, 'shift_end': 'inf', 'cap': 60,
+                'costs': [rng.range(0, 20), rng.range(1, 3), rng.range(0, 2), 0, 0]}
+    routes = []
+    jid = 1
+    for r in range(rng.range(1, 3)):
+        locs = list(range(1, n))
+        rng.shuffle(locs)
+        tour = []
+        for l in locs[:rng.range(2, 3)]:
+            tour.append({'job': jid, 'loc': l, 'svc': 0, 'tws': 0, 'twe': 'inf', 'dem': [0, 0, 1, 0]})
+            jid += 1
+        routes.append({'veh': veh(), 'tour': tour})
+    free = [dict(veh(), end=0) for _ in range(rng.range(0, 1))]
+    nj = rng.range(2, 5)
+    multi_at = set([rng.below(nj)] + ([rng.below(nj)] if rng.chance(1, 3) else []))
+    trap = rng.chance(2, 3)
+    jobs = []
+    for q in range(nj):
+        def sub(i, loc):
+            return {'id': 900 + 10 * q + i, 'places': [{'loc': loc, 'svc': 0, 'tws': [[0, 'inf']]}], 'dem': [0, 0, rng.range(0, 1), 0]}
+        if q in multi_at:
+            nsub = rng.range(2, 3)
+            if trap and len(routes[-1]['tour']) >= 2:
+                # the cheapest insertion needs the SECOND listed permutation: sub-job 0 sits at the location of a later stop of a tour,
+                # sub-job 1 at the location of the stop before it
+                t = routes[rng.below(len(routes))]['tour']
+                k = rng.below(len(t) - 1)
+                locs = [t[k + 1]['loc'], t[k]['loc']] + [t[k + 1]['loc']] * (nsub - 2)
+                perms = [list(range(nsub)), [1, 0] + list(range(2, nsub))]
+                if nsub == 3 and rng.chance(1, 2):
+                    perms.insert(1, [0, 2, 1])
+            else:
+                locs = [rng.below(n) for _ in range(nsub)]
+                allp = [list(x) for x in itertools.permutations(range(nsub))]
+                rng.shuffle(allp)
+                perms = allp[:rng.range(2, min(3, len(allp)))]
+            jobs.append({'id': 90 + q, 'multi': [sub(i, locs[i]) for i in range(nsub)], 'perms': perms})
+        else:
+            # single candidates away from the depot and from every stop when possible (an insertion next to a stop at the same place is free)
+            used = set([0] + [a['loc'] for r in routes for a in r['tour']])
+            away = [l for l in range(n) if l not in used and all(w['dist'][l * n + u] > 0 for u in used)]
+            jobs.append({'id': 90 + q, 'places': [{'loc': rng.choice(away) if away and rng.chance(4, 5) else rng.below(n), 'svc': 0, 'tws': [[0, 'inf']]}],
+                         'dem': [0, 0, 1, 0]})
+    return dict(base, routes=routes, free=free, jobs=jobs, goal='unassigned+tours+cost', pools=[1, 2, 3, 5, 8, 16], reps=2, multi_grid=True)
+
+
 def generate(rng, tier, n):
     cases = []
     for k in range(n):
+        if k % 6 == 1 and k % 19 not in (7, 3, 12):
+            cases.append(gen_multi_grid(rng.fork('multi-grid-%d' % k)))
+            continue
         if k % 19 == 7:
             cases.append(gen_layouts_case(rng))
             continue
@@ -224,13 +291,22 @@ def model_term(c, impl):
     if c.get('op') == 'choose':
         return '[%s]' % '; '.join('run_choose %s %s' % (g_res(l), g_res(r)) for l, r in c['pairs'])
     if 'panic' in impl:
-        return '(run_c15 [], run_grid [])'
+        return '(run_c15 [], run_grid [], [], [])'
     items = ['(mk_item %s %s)' % (g_opt(i['full']), zlist(i['rc'])) for i in impl['items']]
     nj = impl['n_jobs']
     rows = []
     for r in range(impl['n_routes']):
         rows.append('[%s]' % '; '.join(g_cell(impl['items'][r * nj + q], r * nj + q) for q in range(nj)))
-    return '(run_c15 [%s], run_grid [%s])' % ('; '.join(items), '; '.join(rows))
+    probes, multis = [], []
+    for k, i in enumerate(impl['items']):
+        pr = i.get('probe')
+        if pr is not None:
+            probes.append('v_out (eval_step vsucc (list Z) fst vlt (RSuccess (%s, -1)) %s)' % (zlist(pr['alt']), g_cell(i, k)))
+        if i.get('perm_res'):
+            ps = '[%s]' % '; '.join('PSucc (%s, %s)' % (zlist(x['cost']), z(n)) if x['cost'] is not None
+                                    else 'PFail %s %s' % (z(x['fail'][0]), 'true' if x['fail'][1] else 'false') for n, x in enumerate(i['perm_res']))
+            multis.append('[%s]' % '; '.join(['run_multi %s None' % ps] + (['run_multi %s (Some %s)' % (ps, zlist(pr['alt']))] if pr is not None else [])))
+    return '(run_c15 [%s], run_grid [%s], [%s], [%s])' % ('; '.join(items), '; '.join(rows), '; '.join(probes), '; '.join(multis))
 
 
 def m_opt(v):
@@ -272,7 +348,7 @@ def observed_first(c, impl):
     if f is None:
         return None
     r = impl['route_ids'].index(f['vehicle'])
-    q = ['j%d' % j['id'] for j in c['jobs']].index(f['job'])
+    q = [cid(j) for j in c['jobs']].index(f['job'])
     return impl['items'][r * impl['n_jobs'] + q]['full']
 
 
@@ -284,7 +360,24 @@ def compare(c, impl, model):
             if not same_cost(m_opt(m[0]), got['cost']):
                 return 'choose_best_result on pair %d %s: impl %s model %s' % (k, c['pairs'][k], got, m)
         return None
-    seq, splits, grid = model
+    seq, splits, grid, probes, multis = model
+    probes, multis = list(probes), list(multis)
+    for k, i in enumerate(impl['items']):
+        pr = i.get('probe')
+        if pr is not None:
+            m = probes.pop(0)
+            if not same_cost(m_opt(m[0]), pr['cost']):
+                return 'pair %d evaluated with best_known_cost %s (its own cost %s): impl %s model %s' % (k, pr['alt'], i['full'], pr['cost'], m_opt(m[0]))
+        if i.get('perm_res'):
+            m = list(multis.pop(0))
+            if not same_cost(m_opt(m[0][0]), i['full']):
+                return 'pair %d, eval_multi over the permutation results %s: impl %s model (Model/MultiPerm.v) %s' % (k, [x['cost'] for x in i['perm_res']], i['full'], m_opt(m[0][0]))
+            if pr is not None and not vkey(pr['alt']) < vkey(i['rc']):
+                want = m_opt(m[1][0])
+                want = pr['alt'] if want is None else want
+                if not same_cost(want, pr['cost']):
+                    return 'pair %d, eval_multi with best_known_cost %s over the permutation results %s: impl %s model %s' % (
+                        k, pr['alt'], [x['cost'] for x in i['perm_res']], pr['cost'], want)
     if m_opt(seq) != impl['seq']:
         return 'sequential fold: impl %s model %s' % (impl['seq'], m_opt(seq))
     ms = [m_opt(s) for s in splits]
@@ -383,6 +476,15 @@ def oracle(c, impl):
     tb = [k for k, t in enumerate(impl.get('trees', [])) if bad(t['cost'])]
     if tb and not any(x['class'].startswith('split-dependent') or x['class'].startswith('sequential-not-minimal') for x in v):
         v.append({'class': 'split-dependent' + suffix, 'what': 'schedule %d of the real step/reducer gives %s, minimal cost %s' % (tb[0], impl['trees'][tb[0]]['cost'], best)})
+    hid = [(k, i) for k, i in enumerate(impl['items']) if i.get('probe') is not None and not vkey(i['probe']['alt']) < vkey(i['rc'])
+           and (i['probe']['cost'] is None or vkey(i['probe']['cost']) != vkey(i['full']))]
+    if hid:
+        # a fold step whose accumulator holds a success strictly worse than the pair's own insertion (and not below the route-level
+        # estimate) must return the pair's insertion: this is what every fold chunk does after its first success
+        k, i = hid[0]
+        v.append({'class': 'best-known-cost-hides-cheaper-insertion' + suffix,
+                  'what': 'pair %d (job %s) costs %s on its own; evaluated after an accumulated insertion of cost %s the step returns %s' % (
+                      k, cid(c['jobs'][k % impl['n_jobs']]), i['full'], i['probe']['alt'], i['probe']['cost'])})
     for run in impl.get('collected', []):
         cb = [nm for nm in ('red_route', 'red_job') if bad(run[nm]['cost'])]
         if cb and not any(x['class'].startswith('sequential-not-minimal') for x in v):
@@ -467,6 +569,22 @@ def classify(c, impl):
         labs.append('negative_estimate=%s' % any(i['full'] is not None and vkey(i['full']) < vkey(i['rc']) for i in impl['items']))
         for kd in sorted(set(i['kind'] for i in impl['items'])):
             labs.append('pair_kind=' + kd)
+        if any('multi' in j for j in c['jobs']):
+            nj = impl['n_jobs']
+            labs.append('multi_jobs=%d' % sum(1 for j in c['jobs'] if 'multi' in j))
+            for q, j in enumerate(c['jobs']):
+                if 'multi' in j:
+                    labs.append('multi_position=%s' % ('first' if q == 0 else 'last' if q == nj - 1 else 'middle'))
+                    labs.append('multi_permutations=%d' % len(j.get('perms') or [0]))
+            fulls = [i['full'] for i in impl['items'] if i['full'] is not None]
+            best = min(fulls, key=vkey) if fulls else None
+            for k, i in enumerate(impl['items']):
+                pr = [x['cost'] for x in i.get('perm_res', [])]
+                if pr and i['full'] is not None and pr[0] is not None:
+                    nonfirst = vkey(pr[0]) != vkey(i['full'])
+                    labs.append('multi_best_permutation=%s' % ('non-first' if nonfirst else 'first'))
+                    if nonfirst and vkey(i['full']) == vkey(best) and sum(1 for f in fulls if vkey(f) == vkey(best)) == 1:
+                        labs.append('multi_non_first_permutation_is_unique_minimum_at_column=%s' % ('0' if k % nj == 0 else '>0'))
         labs.append('collect_branch=%s' % ('per_job' if impl['n_jobs'] > impl['n_solution_routes'] else 'per_route'))
         if impl.get('skip_best') is not None:
             labs.append('skip_best_first_insertion=%s' % ('none' if impl['skip_best']['first'] is None else 'observed'))
@@ -478,7 +596,7 @@ def classify(c, impl):
     return labs
 
 
-MANIFEST_TEXT = ('Machine-checked proof (Coq, 44 theorems): (1) for every strict weak order on costs and every reduction tree over contiguous chunks '
+MANIFEST_TEXT = ('Machine-checked proof (Coq, 49 theorems): (1) for every strict weak order on costs and every reduction tree over contiguous chunks '
                  "(everything rayon's fold/reduce can produce) the modelled fold step (eval_job_insertion_in_route with its skip, route-violation, "
                  'prune-by-route-cost and best_known_cost exits) and reducer (choose_best_result as written, with its failure bookkeeping) over the row-major '
                  'cartesian product of routes and jobs return EXACTLY the left-to-right reduction of the individually evaluated pairs whenever route-level '
@@ -491,7 +609,10 @@ MANIFEST_TEXT = ('Machine-checked proof (Coq, 44 theorems): (1) for every strict
                  'without pools; the decomposition groups partition the route indices for all proximity lists and group sizes, and refine+merge returns every '
                  'route once. The model is tied to /repo on every run: real step, reducer and evaluate_all under pools of 1,2,3,4,5,8 threads, under all two-chunk splits and six further '
                  'explicit schedules, pair kinds and failure fields, the collected vectors of both branches, the first insertion of RecreateWithSkipBest, '
-                 'choose_best_result on generated pairs, and the real DecomposeSearch under pool layouts.')
+                 'choose_best_result on generated pairs, and the real DecomposeSearch under pool layouts. (4) best_known_cost only prunes: for every pair that is ok the scan '
+                 'started from any accumulated cost returns the pair\'s own result or a failure that cannot hide the minimum; the outer fold of eval_multi over the allowed '
+                 'permutations (MultiContext::promote as written; Model/MultiPerm.v) has this property for every list of permutation results without a stopped failure; grids with '
+                 'Multi candidates of 2-3 allowed permutations (pools of 1,2,3,5,8,16 threads), a best-known-cost probe per pair and the per-permutation results are compared on every run.')
 MANIFEST_NOTE = ('Trusted: Coq kernel+vm_compute; harness; rayon contract (contiguous ordered chunks, order-preserving collect, install returns the value). Not '
                  'exhibited by the model: real thread interleavings, memory visibility, thread-local RNG (only sampled). evaluate_and_collect_all is pub(crate): '
                  'its two branches are compared through a harness twin and the real one only through RecreateWithSkipBest with at most one free vehicle. The '
